@@ -1109,7 +1109,8 @@ int cif_container_get_value(
                             }
 
                             FAILURE_HANDLER(inner):
-                            free(temp);
+                            /* releases any members already loaded, too */
+                            cif_value_free(temp);
                         }
 
                         sqlite3_reset(cif->get_value_stmt);
